@@ -24,8 +24,28 @@ static void fill(rng_t *r, uint8_t *p, size_t n, int lim16)
  * every granularity; dense random data would show an aligned all-zero 64-bit word once in 2^64 */
 static void fill_sparse(rng_t *r, uint8_t *p, size_t n, int lim16)
 {
-	unsigned mode = rng_below(r, 6);
+	unsigned mode = rng_below(r, 8);
 	fill(r, p, n, lim16);
+	if (mode >= 6) {
+		/* 16-byte blocks whose two 64-bit halves are arithmetically related: x,-x  x,x  x,~x  0,x  x,0  ~0,~0  single bits.
+		 * A "whole block is zero" test written with + or ^ instead of | is fooled by exactly these. */
+		for (size_t i = 0; i + 16 <= n; i += 16) {
+			uint64_t x = rng_u64(r), a, b;
+			switch (rng_below(r, 8)) {
+			case 0: a = x; b = (uint64_t)0 - x; break;
+			case 1: a = x; b = x; break;
+			case 2: a = x; b = ~x; break;
+			case 3: a = 0; b = x; break;
+			case 4: a = x; b = 0; break;
+			case 5: a = b = ~(uint64_t)0; break;
+			case 6: a = 1ULL << (x & 63); b = (uint64_t)0 - a; break;
+			default: a = 0x8000000000000000ULL; b = a; break;
+			}
+			if (lim16) { a &= 0x0F0F0F0F0F0F0F0FULL; b &= 0x0F0F0F0F0F0F0F0FULL; }
+			memcpy(p + i, &a, 8); memcpy(p + i + 8, &b, 8);
+		}
+		return;
+	}
 	switch (mode) {
 	case 0: memset(p, 0, n); break;                                                        /* all zero */
 	case 1: for (size_t i = 0; i < n; i += 8) if (rng_below(r, 2)) memset(p + i, 0, n - i < 8 ? n - i : 8); break;   /* zero 64-bit words (relative to the start) */
